@@ -18,6 +18,11 @@ def configs(tier):
     q = tier == "quick"
     c = []
     M = "cnt=1,prop=C03,probe=0"
+    # (the byte-stream retry policies first: cheap, and a tier deadline cuts from the end)
+    for tp, dq, dt in (("btcp", 3, 4), ("btls", 2, 3)):
+        c.append(("tp=%s,script=S1,ma=b,mb=b,sig=1,resend=1,%s" % (tp, M), dq if q else dt))
+        for pol in ("same", "shorter", "different", "longer"):
+            c.append(("tp=%s,script=R1,retry=%s,%s" % (tp, pol, M), dq if q else dt))
     for tp, dq, dt in (("tcp", 3, 4), ("ux", 3, 4), ("uxf", 3, 4), ("utls", 3, 4), ("tls", 2, 3), ("utlstls", 2, 3)):
         # sizes, non-blocking and blocking
         c.append(("tp=%s,script=T5,style=spec,%s" % (tp, M), max(1, (dq if q else dt) - 1)))
@@ -29,10 +34,6 @@ def configs(tier):
                       (dq if q else dt) - (1 if tp in ("tls", "utlstls") else 0)))
         # EAGAIN refusals with re-send (non-blocking): duplicates would show
         c.append(("tp=%s,script=T2,style=loop,%s" % (tp, M), dq if q else dt))
-    for tp, dq, dt in (("btcp", 3, 4), ("btls", 2, 3)):
-        c.append(("tp=%s,script=S1,ma=b,mb=b,sig=1,resend=1,%s" % (tp, M), dq if q else dt))
-        for pol in ("same", "shorter", "different", "longer"):
-            c.append(("tp=%s,script=R1,retry=%s,%s" % (tp, pol, M), dq if q else dt))
     return c
 
 
